@@ -4,6 +4,9 @@ go 1.23
 
 require github.com/elastic/go-ucfg v0.0.0
 
-require gopkg.in/yaml.v2 v2.2.8 // indirect
+require (
+	gopkg.in/hjson/hjson-go.v3 v3.0.1 // indirect
+	gopkg.in/yaml.v2 v2.2.8 // indirect
+)
 
 replace github.com/elastic/go-ucfg => /repo
